@@ -275,7 +275,56 @@ fn op_parse(toks: &[Tok], prop: &str) -> Outcome {
         }
     };
     crate::oracles::parse_oracle(prop, sh, &f, &bs, &mut oracle);
+    if prop == "C19" {
+        ids_oracle(sh, &bs, &mut oracle);
+    }
     Outcome { result, oracle }
+}
+
+/// C19, last sentence: the 4-byte ECU, application and context ids of a parsed message are what the
+/// fixed-size-field rule yields for the 4 bytes at their place in the input
+fn ids_oracle(sh: bool, bs: &[u8], oracle: &mut Vec<(String, String)>) {
+    let m = match guarded(|| dlt_message(bs, None, sh)) {
+        Some(Ok((_, ParsedMessage::Item(m)))) => m,
+        _ => return,
+    };
+    let base = if sh {
+        if !bs.starts_with(b"DLT\x01") {
+            return; // junk in front: offsets unknown here (covered by C06)
+        }
+        16
+    } else {
+        0
+    };
+    let field = |off: usize| -> Option<Vec<u8>> { bs.get(off..off + 4).and_then(|b| zstr_spec(4, b)).map(|x| x.0) };
+    let htyp = bs[base];
+    let mut off = base + 4;
+    let mut check = |what: &str, got: Option<&String>, off: usize, oracle: &mut Vec<(String, String)>| {
+        if let (Some(g), Some(w)) = (got, field(off)) {
+            if g.as_bytes() != &w[..] {
+                oracle.push(("ids_obey_field_rule".into(), format!("{} id {:?} but the field rule gives {}", what, g, hex(&w))));
+            }
+        }
+    };
+    if sh {
+        check("storage-header ECU", m.storage_header.as_ref().map(|s| &s.ecu_id), 12, oracle);
+    }
+    if htyp & 4 != 0 {
+        check("ECU", m.header.ecu_id.as_ref(), off, oracle);
+        off += 4;
+    }
+    if htyp & 8 != 0 {
+        off += 4;
+    }
+    if htyp & 16 != 0 {
+        off += 4;
+    }
+    if htyp & 1 != 0 {
+        if let Some(x) = &m.extended_header {
+            check("application", Some(&x.application_id), off + 2, oracle);
+            check("context", Some(&x.context_id), off + 6, oracle);
+        }
+    }
 }
 
 fn op_enc(toks: &[Tok], _prop: &str) -> Outcome {
